@@ -79,3 +79,46 @@ PROPS['C08'] = {
         J('hist_casan', 'c08.cpp', 'casan', [0, 500000], scenario='mutex_fifo_history', threads=1, tiers=(T,)),
     ],
 }
+
+PROPS['C09'] = {
+    'technique': 'recorded operation histories vs executable reference queue model; unique item ids for exactly-once / order in MT stress rounds',
+    'level_text': ('Single-thread histories over push/pop/unblock_pop/size/empty/destroy (raw futures and coroutine consumers, normal and coroutine '
+                   'mode) are compared with a 30-line reference model after every step; multi-threaded closed rounds (1-3 producers x 1-3 consumers, '
+                   'coroutine and blocking) check conservation of unique ids, per-producer order per consumer, real-time order for a single consumer, '
+                   'exceptions == successful unblock_pop calls, payload checksums and instance counts; queue<void> against a counter model.'),
+    'level_note': 'Trusts the reference model (vf/scn/queue.h q_model), the payload instance counters and ASan/UBSan; MT verdicts cover only reached interleavings.',
+    'rule': ('case = one generated history (1-40 ops, phases biased to producer-heavy or consumer-heavy traffic) or one team round with few items per '
+             'producer; non-trivial = history of >=3 ops / round with >=2 items; distinct = distinct op sequence (with modes) or distinct '
+             '(role layout, waited pops, lost-subscribe-race count) of a round.'),
+    'min_nontrivial': [200, 2000],
+    'require_classes': ['queue_mt:pops_that_waited', 'queue_mt:exceptions_via_unblock'],
+    'single_thread_scenarios': ('queue_history', 'queue_void_history'),
+    'jobs': [
+        J('hist_asan', 'c09.cpp', 'asan', [20000, 1000000], scenario='queue_history,queue_void_history', threads=1),
+        J('mt_asan', 'c09.cpp', 'asan', [30000, 1500000], scenario='queue_mt', threads=6),
+        J('mt_rel', 'c09.cpp', 'rel', [200000, 10000000], scenario='queue_mt', threads=6),
+        J('mt_crel', 'c09.cpp', 'crel', [0, 4000000], scenario='queue_mt', threads=6, tiers=(T,)),
+        J('hist_casan', 'c09.cpp', 'casan', [0, 500000], scenario='queue_history,queue_void_history', threads=1, tiers=(T,)),
+    ],
+}
+PROPS['C10'] = {
+    'technique': 'exhaustive short histories + random histories vs executable reference model of the statement; MT conservation rounds',
+    'level_text': ('The reference model encodes exactly the statement (push completes at once while fewer than limit items wait or a consumer '
+                   'waits, otherwise parks with its item; each pop admits the oldest parked item; unblock_push fails the oldest parked push and '
+                   'withdraws its item). All sequences over {push,pop,unblock_push} up to length 7 for limits 1-2 are enumerated completely; random '
+                   'histories cover limits 1-4 with coroutine producers/consumers; MT closed rounds check conservation and per-producer order.'),
+    'level_note': 'Trusts the reference model and the observation of future readiness via ready()/value(); limited_queue does not expose unblock_pop, so it is not driven.',
+    'rule': ('case = one history (exhaustive sub-space: every op sequence of length <=7, limits 1-2; random: 1-40 ops, limits 1-4, normal/coroutine '
+             'mode) or one MT round; non-trivial = >=3 ops / >=2 items; distinct = distinct (limit, op sequence with modes) or round signature.'),
+    'exhaustive_note': 'all sequences over {push,pop,unblock_push} of length 1..7 for limits 1 and 2 (6558 histories) - exhaustive for that sub-space only',
+    'min_nontrivial': [200, 2000],
+    'require_classes': ['lqueue_mt:pops_that_waited', 'lqueue_mt:exceptions_via_unblock'],
+    'single_thread_scenarios': ('lqueue_history', 'lqueue_exhaustive'),
+    'jobs': [
+        J('hist_asan', 'c10.cpp', 'asan', [20000, 1000000], scenario='lqueue_exhaustive,lqueue_history', threads=1),
+        J('mt_asan', 'c10.cpp', 'asan', [30000, 1500000], scenario='lqueue_mt', threads=6),
+        J('mt_rel', 'c10.cpp', 'rel', [200000, 10000000], scenario='lqueue_mt', threads=6),
+        J('mt_crel', 'c10.cpp', 'crel', [0, 4000000], scenario='lqueue_mt', threads=6, tiers=(T,)),
+        J('hist_casan', 'c10.cpp', 'casan', [0, 500000], scenario='lqueue_exhaustive,lqueue_history', threads=1, tiers=(T,), args=['--maxlen', '8']),
+    ],
+}
